@@ -62,6 +62,12 @@ for _names in DOMAIN_CLASSES.values():
         DOMAIN_PROFILES.setdefault(_name, 60)
 MAIN_DOMAINS = sorted(name for name in DOMAIN_PROFILES if not name.endswith("-KS"))
 
+# type II PKS profiles (t2pks.hmm is emptied in this sandbox; names follow <protein type>_<function>)
+T2PKS_PROFILES = ["KS", "CLF_7", "CLF_8|9", "CLF_11|12", "ACP", "KR", "CYC_C7-C12", "CYC_C5-C14", "CYC_C9-C14",
+                  "CYC_C5-C14/C3-C16", "MET", "GT", "HAL"]
+for _name in T2PKS_PROFILES:
+    DOMAIN_PROFILES.setdefault(_name, 60)
+
 
 def module_layout(rng: Any) -> List[Any]:
     """ A seeded domain layout for one gene: 1-3 modules in the grammar the module builder documents
@@ -295,7 +301,8 @@ def _install(inv: Dict[str, Any]) -> None:
     hmmscan_module.run_hmmscan = fake_scan
     real_lengths = utils.get_hmm_lengths
     fake_files = set(inv.get("domain_hits", {})) | {"nrpspksdomains.hmm", "abmotifs.hmm", "ksdomains.hmm",
-                                                     "transATor.hmm"}
+                                                     "transATor.hmm", "t2pks.hmm"}
+    subprocessing.run_blastp = lambda *args, **kwargs: []     # starter unit search of the type II PKS module
 
     def lengths(hmm_file: str) -> Dict[str, int]:
         if os.path.basename(hmm_file) in fake_files:
@@ -304,6 +311,8 @@ def _install(inv: Dict[str, Any]) -> None:
             return table
         return real_lengths(hmm_file)
     utils.get_hmm_lengths = lengths
+    from antismash.modules.t2pks import t2pks_analysis
+    t2pks_analysis.get_hmm_lengths = lengths       # imported there by name
 
     clock = SimClock(float(inv.get("clock", EPOCH)))
 
